@@ -46,6 +46,9 @@ DFn(f, x) == CASE f = "neg" -> "-1"
               [] f = "arctanh" -> RDiv("1", RSub("1", RSq(x)))
 
 IsConst(e) == e.op = "const"
+C(x) == [op |-> "const", v |-> x]
+B(op, x, y) == [op |-> op, a |-> <<x, y>>]
+U(op, x) == [op |-> op, a |-> <<x>>]
 
 RECURSIVE Eval(_, _)
 Eval(e, v) ==
@@ -86,6 +89,39 @@ Grad(e, v) ==
                             ELSE RAddSeq(RScaleSeq(dx, Grad(e.a[1], v)), RScaleSeq(RMul(RPow(x, y), RLog(x)), Grad(e.a[2], v)))
     [] e.op \in Unary -> RScaleSeq(DFn(e.op, Eval(e.a[1], v)), Grad(e.a[1], v))
     [] e.op = "kn"    -> RScaleSeq(DKn(e.n, Eval(e.a[1], v)), Grad(e.a[1], v))
+
+\* ------------------------------------------------------------------ symbolic derivative (an expression again)
+\* Diff(e, i) = d e / d leaf_i as an expression tree; second derivatives are Grad(Diff(e, i), v)
+DFnE(f, x) ==        \* derivative of the unary function f at the expression x, as an expression
+  CASE f = "neg" -> C("-1")
+    [] f = "abs" -> B("div", x, U("abs", x))
+    [] f = "sqrt" -> B("div", C("1/2"), U("sqrt", x))
+    [] f = "log" -> B("div", C("1"), x)
+    [] f = "exp" -> U("exp", x)
+    [] f = "sin" -> U("cos", x)
+    [] f = "cos" -> U("neg", U("sin", x))
+    [] f = "tan" -> B("div", C("1"), B("pow", U("cos", x), C("2")))
+    [] f = "arcsin" -> B("div", C("1"), U("sqrt", B("sub", C("1"), B("pow", x, C("2")))))
+    [] f = "arccos" -> U("neg", B("div", C("1"), U("sqrt", B("sub", C("1"), B("pow", x, C("2"))))))
+    [] f = "arctan" -> B("div", C("1"), B("add", C("1"), B("pow", x, C("2"))))
+    [] f = "sinh" -> U("cosh", x)
+    [] f = "cosh" -> U("sinh", x)
+    [] f = "tanh" -> B("div", C("1"), B("pow", U("cosh", x), C("2")))
+    [] f = "arcsinh" -> B("div", C("1"), U("sqrt", B("add", B("pow", x, C("2")), C("1"))))
+    [] f = "arccosh" -> B("div", C("1"), U("sqrt", B("sub", B("pow", x, C("2")), C("1"))))
+    [] f = "arctanh" -> B("div", C("1"), B("sub", C("1"), B("pow", x, C("2"))))
+RECURSIVE Diff(_, _)
+Diff(e, i) ==
+  CASE e.op = "var"   -> IF e.i = i THEN C("1") ELSE C("0")
+    [] e.op = "const" -> C("0")
+    [] e.op = "add"   -> B("add", Diff(e.a[1], i), Diff(e.a[2], i))
+    [] e.op = "sub"   -> B("sub", Diff(e.a[1], i), Diff(e.a[2], i))
+    [] e.op = "mul"   -> B("add", B("mul", Diff(e.a[1], i), e.a[2]), B("mul", e.a[1], Diff(e.a[2], i)))
+    [] e.op = "div"   -> B("sub", B("div", Diff(e.a[1], i), e.a[2]), B("div", B("mul", e.a[1], Diff(e.a[2], i)), B("pow", e.a[2], C("2"))))
+    [] e.op = "pow"   -> IF IsConst(e.a[2])
+                         THEN B("mul", B("mul", e.a[2], B("pow", e.a[1], C(RSub(e.a[2].v, "1")))), Diff(e.a[1], i))
+                         ELSE B("mul", e, B("add", B("mul", Diff(e.a[2], i), U("log", e.a[1])), B("div", B("mul", e.a[2], Diff(e.a[1], i)), e.a[1])))
+    [] e.op \in Unary -> B("mul", DFnE(e.op, e.a[1]), Diff(e.a[1], i))
 
 \* ------------------------------------------------------------------ domain of definition over the reals
 \* is every function of the tree applied inside its (real) domain at v - otherwise the result "is not a number"
@@ -136,9 +172,6 @@ AGrad(e, v) ==
 \*         [op |-> "rvar", i |-> k]   a real leaf used inside a complex expression
 \*         [op |-> "cconst", re |-> r, im |-> r]
 \* ops: add sub mul div neg conj
-C(x) == [op |-> "const", v |-> x]
-B(op, x, y) == [op |-> op, a |-> <<x, y>>]
-U(op, x) == [op |-> op, a |-> <<x>>]
 Leaf(i) == IF i = 0 THEN C("0") ELSE [op |-> "var", i |-> i]
 
 RECURSIVE Complexify(_)
